@@ -166,6 +166,17 @@ fn programs(tier: Tier) -> Vec<Program> {
             ],
         },
     ];
+    v.push(Program {
+        name: "four threads: two writers of one name || reader || pruner at size 2",
+        desired: 2,
+        setup: vec![Op::Ins(rec(3, Ty::A, 1, 1)), Op::Adv(1500)],
+        threads: vec![
+            vec![TOp::Ins(rec(1, Ty::A, 1, 3))],
+            vec![TOp::Ins(rec(1, Ty::A, 1, 5)), TOp::Ins(rec(2, Ty::A, 1, 5))],
+            vec![TOp::Get(1, Q::Any)],
+            vec![TOp::Prune],
+        ],
+    });
     if tier == Tier::Thorough {
         v.push(Program {
             name: "three writers re-inserting the same record || (none)",
@@ -578,7 +589,7 @@ pub fn run(ctx: &Ctx) -> i32 {
     report.assumptions = vec![
         "an insert and a lookup that returns a live record count as uses; a lookup returning nothing is an uncertain use; LRU is violated only when an evicted name was certainly used later than a surviving one".into(),
         "the overflow flag returned by prune is not judged (not part of the statement)".into(),
-        "threads: 3 model threads; every cache operation is one critical section, so more threads add no new shape of interleaving (stated, not checked)".into(),
+        "threads: 3-4 model threads; every cache operation is one critical section, so more threads add no new shape of interleaving (stated, not checked)".into(),
         "concurrency oracle = structural invariants + count equality + exact final prune; linearizability of outcomes is reported as information only".into(),
     ];
     finish(ctx, report)
